@@ -25,6 +25,8 @@ const (
 	KArr                     // [2]uint64
 	KExt                     // hb.Xn: declared in a package the file does not import
 	KExtPtr                  // *hb.Xn
+	KVis                     // hc.Yn: declared in a helper package the file imports
+	KVisPtr                  // *hc.Yn
 	numKinds
 )
 
@@ -120,7 +122,10 @@ type Program struct {
 	// variable declared just before it), and all those variables are
 	// overwritten with recognisable poison values as soon as the first user
 	// function is entered: an argument that is read after that moment shows.
-	Bare           bool     `json:"bare,omitempty"`
+	Bare bool `json:"bare,omitempty"`
+	// Base is the import path of the program\'s package (set by Files); programs
+	// with imported functions have helper packages Base/ha, Base/hb, Base/hc.
+	Base           string   `json:"-"`
 	Features       []string `json:"features,omitempty"`
 	NumFns         int      `json:"num_fns"`
 	NumSites       int      `json:"num_sites"` // rt.A sites
